@@ -342,7 +342,7 @@ func runMutate(args []string) {
 				panics++
 				out.Write(M{"prop": map[string]string{"json": "C41", "ccf": "C42"}[codec], "kind": codec + "-decode-panic", "op": op,
 					"panic": strings.SplitN(what, "\n", 2)[0],
-					"msg": "decoder panicked on mutated input: " + what, "hex": hex.EncodeToString(mut), "source": hex.EncodeToString(src)})
+					"msg":   "decoder panicked on mutated input: " + what, "hex": hex.EncodeToString(mut), "source": hex.EncodeToString(src)})
 				outcomes[op+"|panic"]++
 			case derr != nil:
 				rejected++
